@@ -240,9 +240,17 @@ def eval_history(case):
         out = []
         if ans != exp:
             out.append({'kind': 'deadlock' if ans == ('exc', 'SelfDeadlock') else 'wrong-answer', 'op': op, 'got': ans, 'expected': exp})
-        c = st.rule._cache
-        if c is not None and list(c) != E[:len(c)]:
-            out.append({'kind': 'cache-not-a-prefix', 'op': op, 'cache_len': len(c)})
+        c = getattr(st.rule, '_cache', None)
+        if not out and c is not None and list(c) != E[:len(c)]:
+            # The memo looks wrong, but it is internal state: only an observable consequence is a violation.  Rebuild
+            # the same history on a fresh object and ask for the whole sequence once more.
+            st3 = fresh()
+            for o in tuple(hist) + (op,):
+                h_step(st3, o)
+            seen = h_step(st3, ('list',))
+            if seen != ('ok', list(E)):
+                out.append({'kind': 'wrong-answer', 'op': ('list-after',) + tuple(op), 'got': seen, 'expected': ('ok', list(E)[:6]),
+                            'cache_len': len(c)})
         return out
 
     def canon(st):
